@@ -1,9 +1,11 @@
 import Proofs.Small
 import Proofs.Resolve
-/-! C04 — webentity resolution. Proved so far: resolving the webentity and resolving the defining prefix
-    are two projections of one walk — one succeeds iff the other does, with the library's own error
-    otherwise — and the defining prefix is an initial part of the query; the point query answers from
-    the located block. Longest-prefix over net edits is under construction (Proofs/Shape*). -/
+import Proofs.WeMapRun
+/-! C04 — webentity resolution is longest-prefix match over the net prefix edits, in full: in every reachable
+    state resolution returns the id at the longest stem-prefix of the query that carries one (`C04_resolve`,
+    Proofs/Resolve), and over histories the attachment map is exactly the fold of the abstract edits
+    (`C04_history_fresh`, `C04_history_edits`, Proofs/WeMap*); attaching an attached prefix is refused
+    (`C04_refuse_attached`); a refused deletion changes nothing (`C04_delete`). -/
 namespace Traph.Props
 open Traph State
 
@@ -91,5 +93,51 @@ theorem C04_point_query (s : State) (p : Bytes) (w : Nat) (h : s.webentityByPref
     split at h
     · cases h
     · rename_i hne; cases h; exact ⟨n, rfl, rfl, by simpa using hne⟩
+
+/-! ### history level (Proofs/WeMap*): "currently" = the net effect of the edits -/
+
+/-- THE PROPERTY over histories: after any history from a fresh index, resolution of any query LRU (indexed or not) is longest-stem-prefix match in the map obtained by folding the abstract edits (`specOp`: add/remove/move/delete/create and the creations reported by page requests) over the transcript; it fails with the library's own error iff no stem-prefix is attached -/
+theorem C04_history_fresh (cfg : Config) (dflt : Rule) (rules : List (Bytes × Rule)) (ops : List Op)
+    (hop : ∀ op ∈ ops, ∀ d rs, op ≠ .clear d rs) (hwf : ∀ op ∈ ops, OpWfWe op)
+    (hok : NoKeyErr (State.fresh cfg dflt rules []).1 ops) (q : Bytes) :
+    let s0 := (State.fresh cfg dflt rules []).1
+    let M := specFold (fun _ => 0) (s0.transcript ops)
+    (∀ w, (s0.run ops).retrieveWebentity q = .ok w ↔
+      ∃ k, LongestAt M (lruIter q) k ∧ w = M ((lruIter q).take k)) ∧
+    (∀ e, (s0.run ops).retrieveWebentity q = .error e ↔ e = .traph ∧ NoneAt M (lruIter q)) ∧
+    (∀ p, (s0.run ops).retrievePrefix q = .ok p ↔
+      ∃ k, LongestAt M (lruIter q) k ∧ p = ((lruIter q).take k).flatten) ∧
+    (∀ e, (s0.run ops).retrievePrefix q = .error e ↔ e = .traph ∧ NoneAt M (lruIter q)) :=
+  Traph.C04_history_fresh cfg dflt rules ops hop hwf hok q
+
+/-- the same against a pure, computable specification of the six explicit edit requests (map, id counter and answers) -/
+theorem C04_history_edits {s : State} {t : T} (h : Shape s t) (ops : List Op)
+    (he : ∀ op ∈ ops, IsEdit op) (hwf : ∀ op ∈ ops, OpWfWe op) (q : Bytes) :
+    let M := (pureRun (s.weMap, s.hdrId) ops).1.1
+    (∀ w, (s.run ops).retrieveWebentity q = .ok w ↔
+      ∃ k, LongestAt M (lruIter q) k ∧ w = M ((lruIter q).take k)) ∧
+    (∀ e, (s.run ops).retrieveWebentity q = .error e ↔ e = .traph ∧ NoneAt M (lruIter q)) ∧
+    (∀ p, (s.run ops).retrievePrefix q = .ok p ↔
+      ∃ k, LongestAt M (lruIter q) k ∧ p = ((lruIter q).take k).flatten) ∧
+    (∀ e, (s.run ops).retrievePrefix q = .error e ↔ e = .traph ∧ NoneAt M (lruIter q)) :=
+  Traph.C04_history_edits h ops he hwf q
+
+/-- attaching a prefix that is already attached is refused with the library's own error and changes nothing; otherwise the map gains exactly that attachment -/
+theorem C04_refuse_attached {s : State} {t : T} (h : Shape s t) (pfx : Bytes) (w : Nat) (hne : lruIter pfx ≠ []) :
+    (s.weMap (lruIter pfx) ≠ 0 →
+      (s.addPrefix pfx w).2 = .error .traph ∧ (s.addPrefix pfx w).1.weMap = s.weMap) ∧
+    (s.weMap (lruIter pfx) = 0 →
+      (s.addPrefix pfx w).2 = .ok () ∧ (s.addPrefix pfx w).1.weMap = mapSet s.weMap (lruIter pfx) w) :=
+  Traph.addPrefix_spec h pfx w hne
+
+/-- deletion: all listed prefixes detached at once, or refused with the state literally unchanged (validated before anything is written) -/
+theorem C04_delete {s : State} {t : T} (h : Shape s t) (w : Nat) (ps : List Bytes)
+    (hne : ∀ p ∈ ps, lruIter p ≠ []) :
+    (deleteOk s.weMap w ps →
+      (s.deleteWebentity w ps).2 = .ok () ∧
+      (s.deleteWebentity w ps).1.weMap = mapSetAll s.weMap (ps.map lruIter) 0) ∧
+    (¬ deleteOk s.weMap w ps →
+      (s.deleteWebentity w ps).2 = .error .traph ∧ (s.deleteWebentity w ps).1 = s) :=
+  Traph.deleteWebentity_spec h w ps hne
 
 end Traph.Props
